@@ -171,6 +171,63 @@ def callback_is(call: ast.Call, name: str) -> bool:
     return cb is not None and chain(cb) == ("self", name)
 
 
+def no_deferred_after_completion(ctx: Ctx, rep: Report, rule: str):
+    """On no path of a loop callback is a method of self scheduled (call_soon / call_later / call_at) after the path has
+    completed the response future (set_result / set_exception): the waiting task is woken first and may already have
+    started the next request when the deferred call runs - a deferred _close_transport / _timeout_mechanism then closes
+    the socket of, and cancels, the wrong request."""
+    n = 0
+    for ci in proto_classes(ctx):
+        for cb in loop_callbacks(ctx, ci):
+            bad = None
+            for p in protocol_paths(ctx, cb):
+                done_at = None
+                for i, ev in enumerate(p.events):
+                    t = tags(ev)
+                    if ev.kind == "call" and (t & {"fut_set_result", "fut_set_exception"}):
+                        done_at = ev
+                    if ev.kind == "call" and done_at is not None and (call_chain(ev.node) or ("",))[-1] in ("call_soon", "call_later", "call_at", "call_soon_threadsafe"):
+                        last = (call_chain(ev.node) or ("",))[-1]
+                        cbx = ev.node.args[1] if last in ("call_later", "call_at") and len(ev.node.args) > 1 else (ev.node.args[0] if ev.node.args else None)
+                        cc = chain(cbx) if cbx is not None else None
+                        if cc and cc[0] == "self" and bad is None:
+                            bad = (p, ev.node, done_at.node)
+            n += 1
+            rep.check(bad is None, rule, "deferred-after-completion:%s" % cb.short, cb.loc(bad[1]) if bad else cb.loc(),
+                      "%s schedules nothing on the protocol object after completing the request" % cb.short,
+                      bad="%s completes the request (%s) and then schedules %s: the caller is woken first and can have the next request in flight when the deferred call runs - it acts on that request (closes its socket, cancels its future) [path %s]" % (
+                          cb.short, norm(bad[2])[:50] if bad else "", norm(bad[1])[:70] if bad else "", bad[0].describe(6) if bad else ""))
+    if n == 0:
+        raise AnalysisError("no loop callbacks found")
+
+
+def timeout_delays(ctx: Ctx, rep: Report, rule: str):
+    """Inventory of every place that schedules self._timeout_mechanism with a delay (call_later / call_at) in the
+    protocol classes: the delay is the configured self.timeout, nothing derived from it (half of it, rounded, capped)
+    - a shorter wait abandons a transmission whose answer is still due, a longer one outlasts the budget."""
+    from ..astutil import expand_locals
+    n = 0
+    for ci in proto_classes(ctx):
+        for c in ctx.prog.mro(ci):
+            if not hasattr(c, "methods"):
+                continue
+            for m in c.methods.values():
+                for call in [x for x in ast.walk(m.node) if isinstance(x, ast.Call)]:
+                    last = (call_chain(call) or ("",))[-1]
+                    if last not in ("call_later", "call_at") or len(call.args) < 2 or chain(call.args[1]) != ("self", "_timeout_mechanism"):
+                        continue
+                    key = "delay:%s:%d" % (m.short, sum(1 for o in rep.obligations if o.rule == rule and o.key.startswith("delay:%s:" % m.short)))
+                    if any(o.rule == rule and o.where == m.loc(call) for o in rep.obligations):
+                        continue
+                    n += 1
+                    d = expand_locals(call.args[0], m.node)
+                    ok = last == "call_later" and chain(d) == ("self", "timeout")
+                    rep.check(ok, rule, key, m.loc(call), "%s waits the configured self.timeout" % m.short,
+                              bad="%s schedules the timeout after %s, not after the configured self.timeout: the transmission is abandoned (and the lock handed on) at another moment than the one the caller configured" % (m.short, norm(call.args[0])))
+    if n < 1:
+        raise AnalysisError("no place schedules self._timeout_mechanism with a delay (expected in _send_request and the partial-response handlers)")
+
+
 # -------------------------------------------------------------- feasibility
 def _mentions(atom: ast.AST) -> Set[str]:
     out = set()
@@ -399,6 +456,18 @@ def net_prim(ctx: Ctx):
                 if ts and all(t[0] == "inst" and isinstance(t[1], ClassInfo) and prog.find_method(t[1], "__getitem__") is None
                               and not any(isinstance(b, str) for b in prog.mro(t[1])[1:] if b not in ("builtins.object", "abc.ABC")) for t in ts):
                     out.append(typeerror)
+        if isinstance(node, ast.Call):
+            # text combined with an operator str does not have ("..." + x.hex() - "..."): TypeError while the arguments are built
+            def _texty(x):
+                return (isinstance(x, ast.Constant) and isinstance(x.value, str)) or isinstance(x, ast.JoinedStr) or \
+                    (isinstance(x, ast.Call) and ((isinstance(x.func, ast.Attribute) and x.func.attr in ("hex", "format", "join", "decode", "strip", "rstrip", "lstrip"))
+                                                  or (isinstance(x.func, ast.Name) and x.func.id in ("str", "repr", "hex")))) or \
+                    (isinstance(x, ast.BinOp) and isinstance(x.op, ast.Add) and (_texty(x.left) or _texty(x.right)))
+            for a in list(node.args) + [k.value for k in node.keywords]:
+                for b in ast.walk(a):
+                    if isinstance(b, ast.BinOp) and isinstance(b.op, (ast.Sub, ast.Div, ast.FloorDiv, ast.Pow, ast.LShift, ast.RShift, ast.BitAnd, ast.BitOr, ast.BitXor, ast.MatMult)) \
+                            and (_texty(b.left) or _texty(b.right)):
+                        out.append(typeerror)
         if isinstance(node, ast.Await):
             v = node.value
             c = chain(v)
